@@ -35,7 +35,13 @@ theorem template_constants_sound :
     Generated.C08.streaming = [("guard", "!g.utils.Features().ThriftStreaming"), ("loop", "req.GetAST().DepthFirstSearch()"),
       ("filter", "st.IsStreaming"),
       ("key", "\"streaming.mode\""), ("StreamingModeKey", "\"streaming.mode\""), ("StreamingBidirectional", "\"bidirectional\""),
-      ("StreamingClientSide", "\"client\""), ("StreamingServerSide", "\"server\""), ("StreamingUnary", "\"unary\"")] := by
+      ("StreamingClientSide", "\"client\""), ("StreamingServerSide", "\"server\""), ("StreamingUnary", "\"unary\"")] ∧
+    -- every message the processor writes is flushed before `Process` returns (the model's `ProcOut.reply` is what LEFT
+    -- the server): after each WriteMessageEnd of the template the next statement on oprot is the Flush
+    Generated.C08.flushAfterEnd =
+      [("oprot.WriteMessageEnd()", "oprot.Flush(ctx)"), ("oprot.WriteMessageEnd()", "oprot.Flush(ctx)"),
+       ("oprot.WriteMessageEnd()", "oprot.Flush(ctx)"), ("oprot.WriteMessageEnd()", "oprot.Flush(ctx)"),
+       ("if err2 = oprot.WriteMessageEnd(); err == nil && err2 != nil {", "if err2 = oprot.Flush(ctx); err == nil && err2 != nil {")] := by
   decide
 
 /-- **msg_roundtrip**: the strict-write message header is read back exactly (any trailing bytes untouched),
